@@ -7,6 +7,7 @@ import (
 	"go/types"
 	"regexp"
 	"sort"
+	"strconv"
 	"strings"
 
 	"golang.org/x/tools/go/ssa"
@@ -314,9 +315,11 @@ func runC01(w *World, r *Report, tier string) {
 			}
 			// assigned somewhere in the decoder
 			assigned := false
-			allInstrs(fn, func(in ssa.Instruction) {
-				if st, ok := in.(*ssa.Store); ok && rootOf(st.Addr) == ssa.Value(fn.Params[0]) && fieldNames(fieldPath(st.Addr)) == p {
-					assigned = true
+			allInstrsH(fn, func(in ssa.Instruction) {
+				if st, ok := in.(*ssa.Store); ok {
+					if sp, ok := w.recvPathIn(fn, st.Addr); ok && sp == p {
+						assigned = true
+					}
 				}
 			})
 			r.Check(assigned, "R6", cons, w.pos(fn.Pos()), "the hand-written decoder never assigns this interface-typed field", "assigned by UnmarshalXML")
@@ -573,6 +576,9 @@ func c01Err(w *World, r *Report, un, ma *ssa.Function) {
 			lits[sp+" "+lo] = true
 		}
 	})
+	for _, g := range w.xmlNameGlobalsUsed(un) {
+		lits[g[0]+" "+g[1]] = true
+	}
 	r.Check(lits["urn:ietf:params:xml:ns:xmpp-stanzas text"], "R5", "stanza.Err#text-name", w.pos(un.Pos()), "the decoder does not look for <text xmlns='urn:ietf:params:xml:ns:xmpp-stanzas'/>", "compares with {stanzas, text}")
 	if ma == nil {
 		r.Fail("R5", "stanza.Err#encode", w.pos(un.Pos()), "Err has a hand-written decoder but no hand-written encoder")
@@ -594,6 +600,9 @@ func c01Err(w *World, r *Report, un, ma *ssa.Function) {
 			}
 		}
 	})
+	for _, g := range w.xmlNameGlobalsUsed(ma) {
+		encNames = append(encNames, g[0]+" "+strconv.Quote(g[1]))
+	}
 	sort.Strings(encNames)
 	hasReason, hasText := false, false
 	for _, n := range encNames {
@@ -610,4 +619,43 @@ func c01Err(w *World, r *Report, un, ma *ssa.Function) {
 func regexpMatch(pat, s string) bool {
 	ok, _ := regexp.MatchString(pat, s)
 	return ok
+}
+
+// xmlNameGlobalsUsed: the (Space, Local) of every package-level xml.Name variable that fn reads, provided the variable is
+// initialised with constants in the package initialiser and never stored to anywhere else (an effectively constant name).
+func (w *World) xmlNameGlobalsUsed(fn *ssa.Function) [][2]string {
+	var out [][2]string
+	seen := map[*ssa.Global]bool{}
+	allInstrs(fn, func(in ssa.Instruction) {
+		for _, op := range in.Operands(nil) {
+			if op == nil || *op == nil {
+				continue
+			}
+			g, ok := (*op).(*ssa.Global)
+			if !ok || seen[g] || !strings.HasSuffix(g.Type().String(), "encoding/xml.Name") {
+				continue
+			}
+			seen[g] = true
+			vals := map[string]string{}
+			constant := true
+			for _, f := range w.Funcs {
+				allInstrs(f, func(x ssa.Instruction) {
+					st, ok := x.(*ssa.Store)
+					if !ok || rootOf(st.Addr) != ssa.Value(g) {
+						return
+					}
+					s, isS := stringConst(st.Val)
+					if f.Name() != "init" || !isS {
+						constant = false
+						return
+					}
+					vals[fieldNames(fieldPath(st.Addr))] = s
+				})
+			}
+			if constant && vals["Local"] != "" {
+				out = append(out, [2]string{vals["Space"], vals["Local"]})
+			}
+		}
+	})
+	return out
 }
